@@ -306,6 +306,34 @@ def prehashed_verify_rules(F):
             yield name, "reject_mismatch", f, ("unknown" if v is None else ("ok" if v == {1} else "viol")), ("a failed comparison gives Err only" if v == {1} else "a failed comparison can return Ok")
         except Exception as e:
             yield name, "reject_mismatch", f, "unknown", "analysis failed: %r" % (e,)
+        if name.endswith("_strict"):
+            a3 = [vk, ("hs", (MSG,)), ctx_value(3), ("sig", 0)]
+            te = {"MsgDigest": "sha2::Sha512"}
+            for clause, okmsg, appl, sc in (
+                    ("reject_R", "when the signature's R does not decompress the result is Err only", lambda i: i.models.r_decodes > 0, dict(force_eq=1, fail_dec=[0])),
+                    ("reject_small_order", "when a small-order test fires the result is Err only", lambda i: len(i.models.small_order_tests) > 0, dict(force_eq=1, force_small=1))):
+                try:
+                    r2, ip2 = run(F, f, a3, tyenv=te, **sc)
+                    v = variants(r2) if r2 is not None else None
+                    if v is None or not appl(ip2):
+                        yield name, clause, f, "unknown", "scenario %s could not be exercised" % (sc,)
+                    elif v == {1}:
+                        yield name, clause, f, "ok", okmsg
+                    else:
+                        yield name, clause, f, "viol", "with %s the verification can return Ok" % ", ".join("%s=%s" % kv for kv in sc.items())
+                except Exception as e:
+                    yield name, clause, f, "unknown", "analysis failed: %r" % (e,)
+            try:
+                r2, ip2 = run(F, f, a3, tyenv=te)
+                so = ip2.models.small_order_tests
+                wantso = {psym(("dec", ("sig", 0), 0)), psym(("A", 0))}
+                if so and all(x is not None and x[0] == "pl" for x in so):
+                    okso = wantso <= set(so)
+                    yield name, "small_order_args", f, ("ok" if okso else "viol"), ("is_small_order is applied to the decoded R and to A" if okso else "is_small_order is not applied to both the decoded R and A")
+                else:
+                    yield name, "small_order_args", f, "unknown", "small-order test arguments outside the domain"
+            except Exception as e:
+                yield name, "small_order_args", f, "unknown", "analysis failed: %r" % (e,)
 
 
 def key_decode_rules(F):
